@@ -28,6 +28,7 @@ I = lambda b: {"sint": b}
 O = lambda t: {"option": t}
 ST = lambda *fs: {"struct": [[n, t, d] for (n, t, d) in fs]}
 E = {"enum": ["A", "B", "Cc"]}
+E2 = {"enum": ["not-set", "a b", "ü", "snake_case", "Plain"]}          # variant names the writer has to escape (serde rename / rename_all)
 CAT = {
     0: ST(("id", U(32), False), ("name", "string", False)),
     1: ST(("a", O(U(32)), False), ("b", "bool", False), ("c", O("string"), False)),
@@ -39,6 +40,7 @@ CAT = {
     7: ST(("u", "unit", False), ("n", {"newtype": U(16)}, False)),
     8: ST(("d", U(32), True), ("x", "string", False)),
     9: ST(("w", {"seq": O(U(16))}, False), ("z", I(64), False)),
+    11: ST(("m", E2, False), ("o", O(E2), False), ("v", {"seq": E2}, False)),
     10: ST(("h", U(64), False), ("g", I(16), False), ("k", I(32), False), ("l", O(U(64)), False), ("m", {"seq": U(64)}, False)),   # with 0-9: every integer width the codec has a method for
 }
 DEFAULTS = {8: {"d": {"i": "0"}}}
@@ -56,7 +58,9 @@ def gen_valid(rng, t):
     if "sint" in t: return str(rng.choice([0, -1, 2 ** (t["sint"] - 1) - 1, -2 ** (t["sint"] - 1), rng.randrange(-2 ** (t["sint"] - 1), 2 ** (t["sint"] - 1))])).encode()
     if "option" in t: return b"" if rng.random() < 0.3 else gen_valid(rng, t["option"])
     if "newtype" in t: return gen_valid(rng, t["newtype"])
-    if "enum" in t: return rng.choice([b"A", b"B", b"Cc"])
+    if "enum" in t:
+        n = rng.choice(t["enum"]).encode()
+        return rng.choice([n, n, b"".join(b"%%%02X" % b for b in n), b"".join(bytes([b]) if (48 <= b <= 57 or 65 <= b <= 90 or 97 <= b <= 122) else b"%%%02X" % b for b in n)]) if not n.isalnum() or rng.random() < 0.2 else n
     if "seq" in t: return b",".join(gen_valid(rng, t["seq"]) for _ in range(rng.choice([0, 1, 2, 3])))
 
 
@@ -73,7 +77,7 @@ def gen_val(rng, t):
         if "uint" in t or "sint" in t: return rng.choice(INT_POOL)
         if "option" in t: return b"" if rng.random() < 0.3 else gen_val(rng, t["option"])
         if "newtype" in t: return gen_val(rng, t["newtype"])
-        if "enum" in t: return rng.choice([b"A", b"B", b"Cc", b"a", b"", b"C", b"%41", b"AB"])
+        if "enum" in t: return rng.choice([x.encode() for x in t["enum"]] + [b"a", b"", b"C", b"%41", b"AB", b"not%2Dset", b"not%2dset", b"a%20b", b"a+b", b"%C3%BC", b"%FF", b"snake%5Fcase", b"Pl%61in", b"not_set"])
         if "seq" in t:
             n = rng.choice([0, 1, 1, 2, 3])
             return rng.choice([b",", b",", b",", b",,", b""]).join(gen_val(rng, t["seq"]) for _ in range(n)) if n else rng.choice([b"", b"", b","])
@@ -180,7 +184,11 @@ def generate(rng, tier):
     for _ in range(n // 4):
         q = b'&'.join(rng.choice([b'k=v', b'a=%41%20b', b'x=', b'novalue', b'=empty', b'j=%E3%81%82', b'', b'b=%FF', b'k=v=w', b'p=a+b', b'%6B=1', b'%3D=%26', b'a=%zz', b'a=%4'])
                       for _ in range(rng.choice([0, 1, 2, 3, 5])))
-        out.append({'case': {'tid': 100, 'query': q.hex()}, 'stream': 'query_iter'})
+        c = {'tid': 100, 'query': q.hex()}
+        if rng.random() < 0.35:          # the request object is reused on a keep-alive connection: an earlier request with another query was read into it
+            c['prev'] = rng.choice([b'abc=def&x=1', b'token=abc123&mode=full&page=2&k=' + b'v' * 40, b'a=%41', b'k=v']).hex()
+            if rng.random() < 0.4: c['query'] = ''; c['noq'] = True          # and this request has no query at all
+        out.append({'case': c, 'stream': 'query_iter'})
     return out
 
 
